@@ -61,6 +61,13 @@ CLAIMED = {
         "mpmath maps re-typed from docstrings; nodes where the map is singular only carry the +-inf/1e16 convention; Hyperbolic grids beyond the pole 1/b and zero-slope nodes of Inverse wrappers (clean ZeroDivisionError) are inadmissible, counted separately.",
         "DESIGN.md 3/C04",
     ),
+    "C01": (
+        "exploration",
+        "complete product of 26 rule classes x every n (both parities; quick 1..41, thorough 1..128, plus -1/0/1 and even n for odd-only rules) x extra-parameter alphabets x every polynomial degree 0..nominal, against exact moments and multiprecision re-typed closed-form definitions (weights = step x mp.diff of the node map; g'(x_i) w_i for the Trefethen maps)",
+        "All sizes up to the bound and all degrees up to the nominal one are enumerated (thorough 1.1e6 comparisons), so parity-dependent and size-dependent slips (series truncation, halved end weights, sign patterns) are decided for every n up to 128 rather than at n=10.",
+        "Gauss nodes come from NumPy/SciPy root finders (tolerance 1e5 eps x natural scale, others 1e4 eps); parameter combinations whose defining node map is not representable in float64 are inadmissible (counted, named in the evidence).",
+        "DESIGN.md 3/C01",
+    ),
 }
 
 NOT_YET = "check not built yet in this session (work in progress; see DESIGN.md section 8 for the order of work)"
